@@ -21,6 +21,37 @@ use muxide::fragmented::{FragmentConfig, FragmentedMuxer};
 mod cli;
 mod purefn;
 
+/// a frame placed at a chosen distance from an allocation boundary: the library's results must not depend on where
+/// the caller's buffer sits in memory, so successive calls hand their bytes over at every alignment modulo 8
+/// (chosen from the frame's text and the position of the call in its case: a replayed case places them identically)
+pub struct Placed(Vec<u8>, usize);
+
+impl Placed {
+    pub fn s(&self) -> &[u8] {
+        &self.0[self.1..]
+    }
+}
+
+impl std::ops::Deref for Placed {
+    type Target = [u8];
+    fn deref(&self) -> &[u8] {
+        self.s()
+    }
+}
+
+pub fn placed(hex: &str, idx: usize) -> Placed {
+    let mut h: u32 = 2166136261;
+    for b in hex.bytes().take(64) {
+        h = (h ^ b as u32).wrapping_mul(16777619);
+    }
+    let k = (h as usize).wrapping_add(idx).wrapping_add(hex.len()) % 8;
+    let d = unhex(hex);
+    let mut v = Vec::with_capacity(d.len() + k);
+    v.resize(k, 0xA5);
+    v.extend_from_slice(&d);
+    Placed(v, k)
+}
+
 pub fn unhex(s: &str) -> Vec<u8> {
     if s == "-" || s == "~" {
         return Vec::new();
@@ -79,6 +110,8 @@ struct Policy {
     cap: Option<usize>,
     intr: Vec<usize>,
     script: Vec<CallResp>,
+    /// responses of successive `flush` calls (then Ok): a flush fault is not a failed write
+    flush: Vec<CallResp>,
 }
 
 #[derive(Default)]
@@ -87,6 +120,7 @@ struct SinkState {
     policy: Policy,
     fired: HashSet<usize>,
     script_pos: usize,
+    flush_pos: usize,
 }
 
 #[derive(Clone)]
@@ -176,6 +210,16 @@ impl Write for TestSink {
         Ok(n)
     }
     fn flush(&mut self) -> io::Result<()> {
+        let mut st = self.0.lock().unwrap();
+        if st.flush_pos < st.policy.flush.len() {
+            let r = st.policy.flush[st.flush_pos].clone();
+            st.flush_pos += 1;
+            return match r {
+                CallResp::Accept(_) => Ok(()),
+                CallResp::Interrupted => Err(io::Error::new(io::ErrorKind::Interrupted, "scripted flush")),
+                CallResp::Fail(k) => Err(io::Error::new(error_kind(k), "scripted flush failure")),
+            };
+        }
         Ok(())
     }
 }
@@ -196,6 +240,20 @@ fn parse_policy(s: &str) -> Policy {
             "zeroat" => p.zero_at = Some(f[1].parse().unwrap()),
             "cap" => p.cap = Some(f[1].parse().unwrap()),
             "intr" => p.intr = f[1].split(',').filter(|x| !x.is_empty()).map(|x| x.parse().unwrap()).collect(),
+            "flush" => {
+                p.flush = f[1]
+                    .split(',')
+                    .filter(|x| !x.is_empty())
+                    .map(|x| {
+                        let (c, r) = x.split_at(1);
+                        match c {
+                            "i" => CallResp::Interrupted,
+                            "f" => CallResp::Fail(r.parse().unwrap()),
+                            _ => CallResp::Accept(0),
+                        }
+                    })
+                    .collect()
+            }
             "script" => {
                 p.script = f[1]
                     .split(',')
@@ -513,7 +571,7 @@ fn build_muxer<W: Write>(c: &PCfg, w: W) -> Result<Muxer<W>, MuxerError> {
 /// run the op list on a muxer whose sink's accepted length can be observed through `len`
 fn run_ops<W: Write>(mut mux: Option<Muxer<W>>, ops: &[&str], len: &dyn Fn() -> usize) -> Vec<String> {
     let mut out = Vec::new();
-    for op in ops {
+    for (opi, op) in ops.iter().enumerate() {
         let t: Vec<&str> = op.split_whitespace().collect();
         if t.is_empty() {
             continue;
@@ -522,16 +580,16 @@ fn run_ops<W: Write>(mut mux: Option<Muxer<W>>, ops: &[&str], len: &dyn Fn() -> 
         let r: Result<String, ()> = {
             let res = catch_unwind(AssertUnwindSafe(|| -> String {
                 match t[0] {
-                    "wv" => unit_reply(mux.as_mut().unwrap().write_video(f64_of(t[1]), &unhex(t[2]), t[3] == "1")),
+                    "wv" => unit_reply(mux.as_mut().unwrap().write_video(f64_of(t[1]), placed(t[2], opi).s(), t[3] == "1")),
                     "wvd" => unit_reply(mux.as_mut().unwrap().write_video_with_dts(
                         f64_of(t[1]),
                         f64_of(t[2]),
-                        &unhex(t[3]),
+                        placed(t[3], opi).s(),
                         t[4] == "1",
                     )),
-                    "wa" => unit_reply(mux.as_mut().unwrap().write_audio(f64_of(t[1]), &unhex(t[2]))),
-                    "ev" => unit_reply(mux.as_mut().unwrap().encode_video(&unhex(t[1]), t[2].parse().unwrap())),
-                    "ea" => unit_reply(mux.as_mut().unwrap().encode_audio(&unhex(t[1]), t[2].parse().unwrap())),
+                    "wa" => unit_reply(mux.as_mut().unwrap().write_audio(f64_of(t[1]), placed(t[2], opi).s())),
+                    "ev" => unit_reply(mux.as_mut().unwrap().encode_video(placed(t[1], opi).s(), t[2].parse().unwrap())),
+                    "ea" => unit_reply(mux.as_mut().unwrap().encode_audio(placed(t[1], opi).s(), t[2].parse().unwrap())),
                     "fin" => unit_reply(mux.as_mut().unwrap().finish_in_place()),
                     "fins" => stats_reply(mux.as_mut().unwrap().finish_in_place_with_stats()),
                     "finish" => unit_reply(mux.take().unwrap().finish()),
@@ -780,11 +838,11 @@ fn run_f(rest: &str) -> String {
     };
     let ops: Vec<&str> = ops_s.split(';').map(|s| s.trim()).filter(|s| !s.is_empty()).collect();
     let mut out = Vec::new();
-    for op in ops {
+    for (opi, op) in ops.into_iter().enumerate() {
         let t: Vec<&str> = op.split_whitespace().collect();
         let r = catch_unwind(AssertUnwindSafe(|| -> String {
             match t[0] {
-                "fw" => match m.write_video(t[1].parse().unwrap(), t[2].parse().unwrap(), &unhex(t[3]), t[4] == "1") {
+                "fw" => match m.write_video(t[1].parse().unwrap(), t[2].parse().unwrap(), placed(t[3], opi).s(), t[4] == "1") {
                     Ok(()) => "ok".into(),
                     Err(e) => {
                         let _ = format!("{} {:?}", e, e);
